@@ -23,7 +23,9 @@ def run(ctx):
         assumptions=["payload validity facts (signatures, lifetimes, capabilities, identity provider verdict, PSK presence) are attributes of the abstract proposal, equal on both sides; "
                      "the generated offenders are structural (sender/type, committer, leaf conflicts); group-context-extension and re-init mixes are proved on the model but not generated",
                      "bundle order of cached proposals is read through hook verif_cached_proposals_in_bundle_order (HashMap iteration order)"],
-        nontrivial=lambda r, kv: r["rows"])
+        nontrivial=lambda r, kv: r["rows"],
+        # directed: by-reference proposals from an external sender (allowed types, and a relayed member Update which it may not send)
+        also=[(["c10x"], None, "c10x")])
 
 
 def replay(ctx, path):
